@@ -25,7 +25,7 @@ type exchange struct {
 // buildExchange picks arguments for function fc and encodes the conforming device's reply
 // (encoder independent of the library)
 func buildExchange(rng *rand.Rand, kind string, fc int, sizeClass int) exchange {
-	tid := 1 + rng.Intn(65534)
+	tid := tidv(rng)
 	unit := u8(rng)
 	addr := u16(rng)
 	qty, state, waddr := 0, false, 0
@@ -102,6 +102,18 @@ func buildExchange(rng *rand.Rand, kind string, fc int, sizeClass int) exchange 
 		ex.reply = mbapFrame(tid, unit, pdu)
 		ex.exc = mbapFrame(tid, unit, []byte{byte(fc + 128), code})
 	} else {
+		if rng.Intn(12) == 0 && len(pdu) > 3 {
+			// a reply whose checksum ends in 00 (every 256th reply does)
+			for try := 0; try < 4000; try++ {
+				if c := crc16(append([]byte{byte(unit)}, pdu...)); c>>8 == 0 {
+					break
+				}
+				pdu[len(pdu)-1]++
+				if try%256 == 255 {
+					pdu[len(pdu)-2]++
+				}
+			}
+		}
 		ex.reply = withCRC(append([]byte{byte(unit)}, pdu...))
 		ex.exc = withCRC([]byte{byte(unit), byte(fc + 128), code})
 	}
@@ -237,6 +249,10 @@ func genFragmentations(tier string, rng *rand.Rand, shard, nshards int, hooks in
 								emit(doOp(ex, hooks, fl, R, "d:"+hx(R[:c])+";td:"+hx(R[c:c2])+";td:"+hx(R[c2:])))
 							}
 						}
+						// stray bytes behind the reply in the same read
+						if kind != "t" && rng.Intn(2) == 0 {
+							emit(doOp(ex, hooks, fl, R, "d:"+hx(append(append([]byte{}, R...), rbytes(rng, 1+rng.Intn(3))...))))
+						}
 						// a slow device: more than a hundred reads that deliver nothing and report nothing, before the reply and
 						// between two of its fragments
 						if sizeClass == 0 || rng.Intn(4) == 0 {
@@ -361,6 +377,17 @@ func genFaults(tier string, rng *rand.Rand, shard, nshards int, hooks int, emit 
 						if n > 2 {
 							emit(doOp(ex, hooks, fl, R, "pc;d:"+hx(R[:n/2])+";d:"+hx(R[n/2:])))
 						}
+						// faults after every prefix of the exception reply (a function byte with the error bit and nothing, or
+						// not everything, behind it)
+						E := ex.exc
+						for p := 1; p < len(E); p++ {
+							emit(doOp(ex, hooks, fl, R, "d:"+hx(E[:p])))
+							emit(doOp(ex, hooks, fl, R, "d:"+hx(E[:p])+";e:-"))
+							emit(doOp(ex, hooks, fl, R, "d:"+hx(E[:p])+";x:-"))
+							if p > 1 {
+								emit(doOp(ex, hooks, fl, R, "d:"+hx(E[:1])+";t;d:"+hx(E[1:p])+";c"))
+							}
+						}
 						// faults after every prefix
 						prefixes := []int{0}
 						prefixes = append(prefixes, cutPositions(rng, n, tier, []int{5, 8, 9, 11, 12, n - 1})...)
@@ -456,6 +483,14 @@ func genC12(tier string, rng *rand.Rand, shard, nshards int, emit emitter) {
 						}
 						for t := 1; t <= 3; t++ {
 							corrupt = append(corrupt, append(append([]byte{}, R...), rbytes(rng, t)...))
+						}
+						// the checksum field blanked (00 00, FF FF)
+						if n >= 4 {
+							for _, v := range []byte{0x00, 0xFF} {
+								d := append([]byte{}, R...)
+								d[n-1], d[n-2] = v, v
+								corrupt = append(corrupt, d)
+							}
 						}
 						// the two CRC bytes exchanged; the last two bytes rotated with the one before
 						if n >= 4 && R[n-1] != R[n-2] {
